@@ -44,9 +44,10 @@ type Step struct {
 	Exec      bool   `json:"exec"`
 	AST       bool   `json:"ast"`
 	Tree      bool   `json:"tree"`
-	Pretty    bool   `json:"pretty,omitempty"` // also print the tree through PrettyPrint
-	Reinit    bool   `json:"reinit,omitempty"` // this step calls Init again on the same instance (new Buffer, same options) instead of Reset
-	GC        bool   `json:"gc,omitempty"`     // run a garbage collection before this step (unwoven race tier only)
+	Pretty    bool   `json:"pretty,omitempty"`  // also print the tree through PrettyPrint
+	Reparse   int    `json:"reparse,omitempty"` // after the step's observations: Parse(Reparse-2) once more WITHOUT Reset (1 = default entry) and observe again
+	Reinit    bool   `json:"reinit,omitempty"`  // this step calls Init again on the same instance (new Buffer, same options) instead of Reset
+	GC        bool   `json:"gc,omitempty"`      // run a garbage collection before this step (unwoven race tier only)
 	AbortPred int    `json:"abort_pred,omitempty"`
 	AbortAct  int    `json:"abort_act,omitempty"`
 	// selectors: resolved at run time into AbortPred/AbortAct = 1 + sel mod
@@ -97,22 +98,16 @@ func sweepInputs(g simrt.Grammar, cfg simrt.InstCfg, sw *Sweep) []string {
 		}()
 		return ntok
 	}
-	t8 := count(8)
-	var ms0, ms1, ms2 runtime.MemStats
-	runtime.ReadMemStats(&ms0)
-	t24 := count(24)
-	runtime.ReadMemStats(&ms1)
-	count(96)
-	runtime.ReadMemStats(&ms2)
+	t8, t24 := count(8), count(24)
 	per := (t24 - t8) / 16
 	if per < 1 || t8 == 0 {
 		return nil
 	}
 	// Memoisation stores a copy of the tokens of every rule application; for
-	// deeply (e.g. right-) recursive grammars that is quadratic in the input.
-	// Where four times the input costs far more than four times the
-	// allocation, only the small boundaries are swept.
-	if a, b := ms1.TotalAlloc-ms0.TotalAlloc, ms2.TotalAlloc-ms1.TotalAlloc; a > 0 && b > 7*a && sw.Boundary > 1024 {
+	// deeply (e.g. right-) recursive derivations that is quadratic in the
+	// input. Where the syntax tree gets deeper with the repetition count only
+	// the small boundaries are swept.
+	if d1, d2 := astDepth(g, strings.Repeat(sw.Unit, 20)+sw.Tail), astDepth(g, strings.Repeat(sw.Unit, 60)+sw.Tail); (d1 == 0 || d2 > d1+2) && sw.Boundary > 1024 {
 		sw.Boundary = 1024
 	}
 	// Enough repetitions to carry the token count past the boundary, and a
@@ -173,6 +168,7 @@ type Case struct {
 	Cfg       simrt.InstCfg      `json:"cfg"`
 	FaultTape []uint32           `json:"fault_tape,omitempty"`
 	FaultCfg  simrt.MemoFaultCfg `json:"fault_cfg"`
+	Reparse   int                `json:"reparse,omitempty"` // c06: see Step.Reparse
 	// c06 on reused instances: a memoising and a non-memoising instance step
 	// through the same history (Buffer=…; Reset(); Parse()) side by side
 	History  []string  `json:"history,omitempty"`
@@ -180,6 +176,7 @@ type Case struct {
 	// boundary sweep (c06 and c12): inputs Prefix×j + Unit×n + Tail, j = 0…Width-1,
 	// n large enough for the token count to cross Boundary
 	Sweep *Sweep `json:"sweep,omitempty"`
+	Giant bool   `json:"giant,omitempty"` // c12: the history contains a giant input (own step budget)
 	// c12
 	Prog *Prog `json:"prog,omitempty"`
 	// c14
@@ -195,8 +192,13 @@ type Case struct {
 	// the clients meet every lazily initialised package-level state cold
 	Cold bool `json:"cold,omitempty"`
 	// freeze strategy, see simrt.Config
-	FreezeClient int `json:"freeze_client,omitempty"`
-	FreezeAt     int `json:"freeze_at,omitempty"`
+	FreezeClient int  `json:"freeze_client,omitempty"`
+	FreezeAt     int  `json:"freeze_at,omitempty"`
+	FreezeSync   bool `json:"freeze_sync,omitempty"`
+	// handoff strategy (see simrt.Config)
+	HandoffWaiter int `json:"handoff_waiter,omitempty"`
+	HandoffHolder int `json:"handoff_holder,omitempty"`
+	HandoffAfter  int `json:"handoff_after,omitempty"`
 }
 
 type Job struct {
@@ -259,6 +261,43 @@ var byName = map[string]*GrammarInfo{}
 var repeatable = map[string][]string{}
 var repeatableNames []string
 
+// linear[g] ⊆ repeatable[g]: units for which four times the repetitions cost
+// about four times the allocation (memoisation copies the tokens of every rule
+// application, which is quadratic for deeply recursive derivations); only
+// these are blown up to tens or hundreds of thousands of runes
+var linear = map[string][]string{}
+var linearNames []string
+
+// unitTokens[g+"\x00"+u]: tokens added by one more repetition of u
+var unitTokens = map[string]int{}
+
+// astDepth parses in and returns the nesting depth of its syntax tree (0 if
+// the parse fails).
+func astDepth(g simrt.Grammar, in string) (depth int) {
+	defer func() {
+		if recover() != nil {
+			depth = 0
+		}
+	}()
+	inst := g.New(simrt.InstCfg{U: 2}, in)
+	var ok bool
+	_, over := counted(2_000_000, func() { ok, _, _ = inst.Parse(-1) })
+	if !ok || over {
+		return 0
+	}
+	d := 0
+	for _, ch := range inst.ASTString() {
+		switch ch {
+		case '(':
+			d++
+			depth = max(depth, d)
+		case ')':
+			d--
+		}
+	}
+	return depth
+}
+
 func findRepeatable() {
 	for i := range workload {
 		gi := &workload[i]
@@ -286,13 +325,24 @@ func findRepeatable() {
 			}
 			if a, b := count(6), count(12); a > 0 && b > a {
 				repeatable[gi.Name] = append(repeatable[gi.Name], u)
+				// deterministic proxy for "memoisation cost is linear": the
+				// syntax tree of u×n does not get deeper with n (repetition
+				// by * or +, not by recursion)
+				if d1, d2 := astDepth(g, strings.Repeat(u, 20)), astDepth(g, strings.Repeat(u, 60)); d1 > 0 && d2 <= d1+2 {
+					linear[gi.Name] = append(linear[gi.Name], u)
+					unitTokens[gi.Name+"\x00"+u] = max(1, (b-a)/6)
+				}
 			}
 		}
 		if len(repeatable[gi.Name]) > 0 {
 			repeatableNames = append(repeatableNames, gi.Name)
 		}
+		if len(linear[gi.Name]) > 0 {
+			linearNames = append(linearNames, gi.Name)
+		}
 	}
 	slices.Sort(repeatableNames)
+	slices.Sort(linearNames)
 }
 
 // ---------- observations ----------
@@ -358,6 +408,11 @@ func doStep(inst simrt.Instance, st Step) (o Obs) {
 	if !ok {
 		o.ErrTok = fmt.Sprintf("(%d %d %d)", et.Rule, et.Begin, et.End)
 		o.ErrMsg = em
+		if st.Reparse != 0 {
+			reparse(inst, st, &o)
+			o.ErrMsg += o.Tree
+			o.Tree = ""
+		}
 		return
 	}
 	o.Tokens = tokString(inst.Tokens())
@@ -376,7 +431,23 @@ func doStep(inst simrt.Instance, st Step) (o Obs) {
 			o.Tree += "\n--pretty--\n" + pp.PrettyTreeString()
 		}
 	}
+	reparse(inst, st, &o)
 	return
+}
+
+// reparse: a second Parse on the same buffer without Reset (a caller falling
+// back to another entry rule). Whatever that means, it must mean the same for
+// the two parsers a check compares.
+func reparse(inst simrt.Instance, st Step, o *Obs) {
+	if st.Reparse == 0 {
+		return
+	}
+	ok, et, em := inst.Parse(st.Reparse - 2)
+	if ok {
+		o.Tree += fmt.Sprintf("\n--reparse(%d)-- ok tokens=%s", st.Reparse-2, tokString(inst.Tokens()))
+	} else {
+		o.Tree += fmt.Sprintf("\n--reparse(%d)-- fail errtok=(%d %d %d) errmsg=%q", st.Reparse-2, et.Rule, et.Begin, et.End, em)
+	}
 }
 
 func firstFrames(stack []byte) string {
@@ -590,7 +661,7 @@ func runC06(c Case) (out Outcome) {
 		out.Skipped = "unknown grammar " + c.Grammar
 		return
 	}
-	st := Step{Input: c.Input, Entry: c.Entry, Exec: true, AST: true, Tree: true}
+	st := Step{Input: c.Input, Entry: c.Entry, Exec: true, AST: true, Tree: true, Reparse: c.Reparse}
 	refCfg := c.Cfg
 	refCfg.NoMemo = true
 	var ref, sub Obs
@@ -747,8 +818,12 @@ func runC12(c Case) (out Outcome) {
 	}
 	// reference: every step alone on a fresh default instance
 	wants := make([]Obs, len(p.Steps))
+	stepBudget := uint64(absBudget)
+	if c.Giant {
+		stepBudget = 60_000_000
+	}
 	for k := range p.Steps {
-		_, fover := counted(absBudget, func() { wants[k] = runFresh(p, k) })
+		_, fover := counted(stepBudget, func() { wants[k] = runFresh(p, k) })
 		if fover {
 			out.Skipped = "fresh reference exceeds the step budget"
 			return
@@ -769,7 +844,7 @@ func runC12(c Case) (out Outcome) {
 	}
 	out.RefSig = uint64(rh)
 	var got []Obs
-	_, over := counted(absBudget*uint64(len(p.Steps)), func() { got = runProg(p) })
+	_, over := counted(stepBudget*uint64(len(p.Steps)), func() { got = runProg(p) })
 	if over {
 		out.Class = "reuse_divergence"
 		out.Detail = "the reused instance exceeded the step budget although every fresh parse finished"
@@ -782,6 +857,9 @@ func runC12(c Case) (out Outcome) {
 		want := wants[k]
 		h = h.AddString(p.Steps[k].Input)
 		g := got[k]
+		if c.Giant && k == 2 {
+			out.Stats["giant_inputs"]++
+		}
 		if g.Aborted {
 			out.Stats["fault_abort_fired"]++
 			class = "reuse_after_abort"
@@ -857,11 +935,26 @@ func runC14(t *testing.T, c Case, keepLog bool) (out Outcome) {
 			return
 		}
 	}
+	bigClient := false
+	for _, p := range c.Clients {
+		for _, st := range p.Steps {
+			if len(st.Input) >= 20_000 {
+				bigClient = true
+			}
+		}
+	}
+	if bigClient {
+		out.Stats["cases_with_a_big_input_client"] = 1
+	}
 	solo := make([][]Obs, len(c.Clients))
 	computeSolo := func() bool {
 		// each client alone
 		for i, p := range c.Clients {
-			_, over := counted(absBudget*uint64(len(p.Steps)), func() { solo[i] = runProg(p) })
+			budget := absBudget * uint64(len(p.Steps))
+			for _, st := range p.Steps {
+				budget += 2000 * uint64(len(st.Input))
+			}
+			_, over := counted(budget, func() { solo[i] = runProg(p) })
 			if over {
 				out.Skipped = "solo run exceeds the step budget"
 				return false
@@ -874,9 +967,41 @@ func runC14(t *testing.T, c Case, keepLog bool) (out Outcome) {
 			}
 		}
 		out.RefSig = uint64(rh)
+		// what a client observes alone must not depend on which instances
+		// lived in the process before it: the solo runs once more in reverse
+		// order (one case in four, and whenever a client works on a big input)
+		if len(c.Clients) > 1 && !c.Race && (bigClient || c.Run%4 == 0) {
+			out.Stats["solo_order_checks"] = 1
+			for i := len(c.Clients) - 1; i >= 0; i-- {
+				p := c.Clients[i]
+				var again []Obs
+				budget := absBudget * uint64(len(p.Steps))
+				for _, st := range p.Steps {
+					budget += 2000 * uint64(len(st.Input))
+				}
+				if _, over := counted(budget, func() { again = runProg(p) }); over {
+					break
+				}
+				for k := range solo[i] {
+					if k >= len(again) || solo[i][k].String() != again[k].String() {
+						var g Obs
+						if k < len(again) {
+							g = again[k]
+						}
+						out.Class = "sequential_interference"
+						out.Detail = fmt.Sprintf("client %d (grammar %s cfg %+v) step %d input %q, alone, observes differently depending on which instances ran (and finished) in the process before it\n  first : %s\n  second: %s",
+							i, p.Grammar, p.Cfg, k+1, p.Steps[k].Input, solo[i][k], g)
+						return false
+					}
+				}
+			}
+		}
 		return true
 	}
 	if !c.Cold && !computeSolo() {
+		if bigClient {
+			out.Stats["cases_with_a_big_input_client_skipped"] = 1
+		}
 		return
 	}
 	together := make([][]Obs, len(c.Clients))
@@ -908,7 +1033,8 @@ func runC14(t *testing.T, c Case, keepLog bool) (out Outcome) {
 					clients = append(clients, simrt.Client{Name: fmt.Sprintf("c%d", i), Run: func() { together[i] = runProg(p) }})
 				}
 				res = simrt.Run(simrt.Config{Tape: c.SchedTape, ActiveNum: c.ActiveNum, ActiveDen: c.ActiveDen, SiteSeed: c.SiteSeed,
-					Budget: c.Budget, KeepLog: keepLog, FreezeClient: c.FreezeClient, FreezeAt: c.FreezeAt}, clients)
+					Budget: c.Budget, KeepLog: keepLog, FreezeClient: c.FreezeClient, FreezeAt: c.FreezeAt, FreezeSync: c.FreezeSync,
+					HandoffWaiter: c.HandoffWaiter, HandoffHolder: c.HandoffHolder, HandoffAfter: c.HandoffAfter}, clients)
 			})
 		}()
 		if out.Skipped != "" {
@@ -922,6 +1048,7 @@ func runC14(t *testing.T, c Case, keepLog bool) (out Outcome) {
 			out.Stats["abandoned"] = 1
 		}
 		out.Stats["freeze_windows_opened"] += res.Thawed
+		out.Stats["handoff_windows_opened"] += res.Handoffs
 		out.Nontrivial = res.Preemptions > 0
 		out.Sig = res.LogHash
 		out.Log = res.Log
@@ -978,7 +1105,7 @@ func refOnly(c Case) uint64 {
 			}
 			return 0
 		}
-		st := Step{Input: c.Input, Entry: c.Entry, Exec: true, AST: true, Tree: true}
+		st := Step{Input: c.Input, Entry: c.Entry, Exec: true, AST: true, Tree: true, Reparse: c.Reparse}
 		refCfg := c.Cfg
 		refCfg.NoMemo = true
 		ref := doStep(g.New(refCfg, c.Input), st)
@@ -1213,6 +1340,12 @@ func genC06(seed uint64, i int) Case {
 		}
 	}
 	fitU(&c.Cfg, c.Input)
+	if r.Chance(1, 10) {
+		c.Reparse = 1
+		if len(g.Entries) > 0 && r.Chance(2, 3) {
+			c.Reparse = 2 + g.Entries[r.Intn(len(g.Entries))]
+		}
+	}
 	c.FaultCfg.Den = 64
 	rates := []uint32{0, 4, 16, 32}
 	kind := r.Intn(8)
@@ -1260,6 +1393,12 @@ func genProg(r *simrt.SplitMix64, g *GrammarInfo, minSteps, maxSteps int, faults
 		if r.Chance(1, 8) {
 			st.Entry = pickEntry(r, g)
 		}
+		if r.Chance(1, 8) {
+			st.Reparse = 1
+			if len(g.Entries) > 0 && r.Chance(2, 3) {
+				st.Reparse = 2 + g.Entries[r.Intn(len(g.Entries))]
+			}
+		}
 		st.Reinit = k > 0 && r.Chance(1, 10)
 		st.GC = r.Chance(1, 12)
 		if faults && g.HasHost && r.Chance(1, 3) {
@@ -1296,6 +1435,29 @@ func genC12(seed uint64, i int) Case {
 			p := Prog{Grammar: g.Name, Cfg: cfg}
 			return Case{Mode: "c12", Run: i, Prog: &p, Sweep: sw}
 		}
+	}
+	if i%4000 == 13 && len(linearNames) > 0 {
+		// a history with one giant input in the middle (hundreds of thousands
+		// of runes: more than a million memo entries, token buffers far beyond
+		// every knob), small ones before and after
+		sg := byName[linearNames[r.Intn(len(linearNames))]]
+		units := linear[sg.Name]
+		u := units[r.Intn(len(units))]
+		giant := strings.Repeat(u, 1+(300_000+r.Intn(300_000))/len(u))
+		p := Prog{Grammar: sg.Name, Cfg: simrt.InstCfg{U: []int{0, 2, 3}[r.Intn(3)], Size: []int{0, 1024}[r.Intn(2)]}}
+		for k := 0; k < 6; k++ {
+			in := units[r.Intn(len(units))]
+			if k == 2 {
+				in = giant
+			} else if r.Chance(1, 2) {
+				in = pickInput(r, sg)
+				if len(in) > 200 {
+					in = u
+				}
+			}
+			p.Steps = append(p.Steps, Step{Input: in, Entry: -1, Exec: k != 2, AST: k != 2, Tree: k != 2})
+		}
+		return Case{Mode: "c12", Run: i, Prog: &p, Giant: true}
 	}
 	if i%1500 == 7 || i%200 == 11 {
 		for tries := 0; g.Heavy && tries < 20; tries++ {
@@ -1401,6 +1563,31 @@ func genC14(seed uint64, i int, race bool, cold bool) Case {
 				}
 			}
 		}
+		// now and then one client works on a big input (tens of thousands of
+		// runes: memo tables and token buffers of a size at which pooling,
+		// shrinking or recycling might kick in) and parses a second time
+		// without Reset, while the others do their small things
+		if j == 0 && !cold && !race && len(linear[g.Name]) > 0 && r.Chance(1, 10) {
+			u := linear[g.Name][r.Intn(len(linear[g.Name]))]
+			big := strings.Repeat(u, 1+(20_000+r.Intn(25_000))/len(u))
+			if r.Chance(1, 2) {
+				// sized by what the parse leaves behind rather than by runes:
+				// 70 000 to 140 000 tokens (each one a memo entry as well)
+				big = strings.Repeat(u, min(1+(70_000+r.Intn(70_000))/unitTokens[g.Name+"\x00"+u], 400_000/len(u)))
+			}
+			if r.Chance(1, 2) {
+				// ... which fails at its very end, so that the second Parse
+				// starts over from offset 0 (after a success it starts where
+				// the first one stopped)
+				big += []string{"\x00", "\x00\n", u[:1] + "\x00"}[r.Intn(3)]
+			}
+			p.Cfg.NoMemo, p.Cfg.U = false, []int{0, 2, 3}[r.Intn(3)]
+			p.Steps[0].Input, p.Steps[0].Tree, p.Steps[0].Pretty, p.Steps[0].AST = big, false, false, false
+			p.Steps[0].Reparse = 1
+			if len(g.Entries) > 0 {
+				p.Steps[0].Reparse = 2 + g.Entries[r.Intn(len(g.Entries))]
+			}
+		}
 		for _, st := range p.Steps {
 			fitU(&p.Cfg, st.Input)
 		}
@@ -1422,6 +1609,21 @@ func genC14(seed uint64, i int, race bool, cold bool) Case {
 	if r.Chance(1, 3) {
 		c.FreezeClient = r.Intn(len(c.Clients))
 		c.FreezeAt = 1 + int(r.Float()*r.Float()*400)
+		if r.Chance(1, 3) {
+			// freeze right after one of the client's first synchronisation operations
+			c.FreezeSync, c.FreezeAt = true, 1+r.Intn(6)
+		}
+	}
+	// handoff: one client does not start before another has completed its
+	// n-th synchronisation operation, which then stands still; always tried
+	// when a client works on a big input (pools and caches that only take
+	// grown objects)
+	bigFirst := len(c.Clients[0].Steps[0].Input) >= 20_000
+	if r.Chance(1, 12) || (bigFirst && r.Chance(1, 2)) {
+		c.HandoffHolder, c.HandoffWaiter, c.HandoffAfter = r.Intn(len(c.Clients)), r.Intn(len(c.Clients)), 1+r.Intn(4)
+		if bigFirst {
+			c.HandoffHolder, c.HandoffWaiter = 0, 1+r.Intn(len(c.Clients)-1)
+		}
 	}
 	return c
 }
